@@ -1,1 +1,518 @@
-pub fn run(_ctx: &crate::Ctx) -> i32 { eprintln!("not built yet"); 2 }
+//! C12 — the derive macro implements the declared layout for any user-defined struct.
+//!
+//! `gen_schema` draws well-formed struct definitions from the attribute grammar
+//! of the macro; they are emitted twice: as Rust source with `#[derive(Zvt)]`
+//! (compiled against /repo) and as a layout table for the reference codec.  The
+//! generated crate links the same engine as C01/C03/C13/C14 and reports back.
+
+use crate::Ctx;
+use refcodec::evidence::Report;
+use refcodec::layout::*;
+use refcodec::prng::Rng;
+use serde_json::json;
+use std::collections::BTreeSet;
+use std::path::{Path, PathBuf};
+
+struct Meta {
+    depth: usize,
+    /// only positional mandatory fields of fixed size: may be nested without a length prefix
+    fixed_positional_only: bool,
+    referenced: bool,
+}
+
+fn pick_tag(rng: &mut Rng, used: &mut BTreeSet<u16>) -> u16 {
+    loop {
+        let t: u16 = match rng.below(5) {
+            0 => 0x1f00 | rng.below(256) as u16,
+            1 => 0xff00 | rng.below(256) as u16,
+            _ => rng.range(1, 0xfe) as u16,
+        };
+        if t == 0x1f || t == 0xff || t == 0x1f0e || t == 0x1f0f {
+            continue;
+        }
+        if used.insert(t) {
+            return t;
+        }
+    }
+}
+
+fn int_ty(rng: &mut Rng) -> IntTy {
+    *rng.pick(&[IntTy::U8, IntTy::U16, IntTy::U32, IntTy::U64, IntTy::Usize])
+}
+
+/// Draw (encoding, length style) for one field.  `greedy_ok`: an unprefixed rest-of-scope field is allowed here.
+fn pick_enc_len(rng: &mut Rng, nested: &[(String, usize, bool)], max_depth: usize, greedy_ok: bool, element: bool) -> (Enc, Len, usize) {
+    let prefixed = |rng: &mut Rng| -> Len { rng.pick(&[Len::Ber, Len::Ber, Len::Ll, Len::Lll]).clone() };
+    loop {
+        match rng.below(20) {
+            0..=7 => {
+                let mut ty = int_ty(rng);
+                if element && ty == IntTy::U8 {
+                    ty = IntTy::U16; // Vec<u8> is the raw-bytes payload type of the feig packets, not a list of numbers
+                }
+                match rng.below(3) {
+                    0 | 1 => {
+                        let be = rng.chance(1, 2);
+                        let len = match rng.below(5) {
+                            0 => Len::Fixed(ty.bytes()),
+                            1 => prefixed(rng),
+                            _ => Len::None,
+                        };
+                        return (Enc::Int { ty, be }, len, 0);
+                    }
+                    _ => {
+                        let len = match rng.below(6) {
+                            0 if greedy_ok => Len::None,
+                            1 | 2 => prefixed(rng),
+                            _ => Len::Fixed(1 + rng.below(10) as usize),
+                        };
+                        if len == Len::None && !greedy_ok {
+                            continue;
+                        }
+                        return (Enc::Bcd(ty), len, 0);
+                    }
+                }
+            }
+            8..=12 => {
+                let enc = rng.pick(&[Enc::Cp437, Enc::Cp437, Enc::Hex, Enc::Utf8]).clone();
+                let len = match rng.below(6) {
+                    0 if greedy_ok => Len::None,
+                    1 => Len::Fixed(1 + rng.below(20) as usize),
+                    _ => prefixed(rng),
+                };
+                if len == Len::None && !greedy_ok {
+                    continue;
+                }
+                return (enc, len, 0);
+            }
+            13 => return (Enc::DateTime, prefixed(rng), 0),
+            _ => {
+                let cands: Vec<&(String, usize, bool)> = nested.iter().filter(|n| n.1 + 1 <= max_depth).collect();
+                if cands.is_empty() {
+                    continue;
+                }
+                let (key, depth, fixed) = (*rng.pick(&cands)).clone();
+                let len = if fixed && !element && rng.chance(1, 2) { Len::None } else { prefixed(rng) };
+                return (Enc::Struct(key), len, depth + 1);
+            }
+        }
+    }
+}
+
+fn fixed_size(enc: &Enc, len: &Len) -> bool {
+    matches!((enc, len), (Enc::Int { .. }, Len::None) | (_, Len::Fixed(_)))
+}
+
+/// Well-formed struct definitions (DESIGN §8 C12 grammar).
+pub fn gen_schema(seed: u64, n: usize) -> Schema {
+    let mut rng = Rng::derive(seed, 0xC12);
+    let mut schema = Schema::default();
+    let mut metas: Vec<Meta> = vec![];
+    for si in 0..n {
+        let key = format!("G{si}");
+        let nested: Vec<(String, usize, bool)> = schema.order.iter().zip(metas.iter()).map(|(k, m)| (k.clone(), m.depth, m.fixed_positional_only)).collect();
+        let n_fields = match rng.below(10) {
+            0 => 0,
+            1 => 1,
+            2 => 8,
+            _ => 2 + rng.below(6) as usize,
+        };
+        let n_pos = if n_fields == 0 { 0 } else { (rng.below(4) as usize).min(n_fields) * (rng.below(3) as usize).min(1) + if rng.chance(1, 6) { n_fields } else { 0 } };
+        let n_pos = n_pos.min(n_fields);
+        let n_tagged = n_fields - n_pos;
+        let mut used_tags = BTreeSet::new();
+        let mut fields = vec![];
+        let mut depth = 0usize;
+        let mut all_fixed = n_tagged == 0;
+        for i in 0..n_pos {
+            let last_overall = i + 1 == n_fields;
+            let card = match rng.below(10) {
+                0 | 1 => Card::Opt,
+                2 if !last_overall || true => Card::Many,
+                _ => Card::One,
+            };
+            let greedy_ok = last_overall && card != Card::Many;
+            let (enc, mut len, d) = pick_enc_len(&mut rng, &nested, 2, greedy_ok, card == Card::Many);
+            if card == Card::Many && matches!(len, Len::None | Len::Fixed(_)) {
+                // repeated positional elements must carry a length prefix
+                len = Len::Ber;
+            }
+            depth = depth.max(d);
+            if card != Card::One || !fixed_size(&enc, &len) || matches!(enc, Enc::Struct(_)) {
+                all_fixed = false;
+            }
+            fields.push(Field { name: format!("f{i}"), card, tag: None, len, enc });
+        }
+        for j in 0..n_tagged {
+            let i = n_pos + j;
+            let last = j + 1 == n_tagged;
+            let card = match rng.below(10) {
+                0 | 1 => Card::One,
+                2 | 3 => Card::Many,
+                _ => Card::Opt,
+            };
+            let greedy_ok = last && card != Card::Many && rng.chance(1, 3);
+            let (enc, len, d) = pick_enc_len(&mut rng, &nested, 2, greedy_ok, card == Card::Many);
+            depth = depth.max(d);
+            let tag = pick_tag(&mut rng, &mut used_tags);
+            fields.push(Field { name: format!("f{i}"), card, tag: Some(tag), len, enc });
+        }
+        for f in &fields {
+            if let Enc::Struct(k) = &f.enc {
+                let idx = schema.order.iter().position(|x| x == k).unwrap();
+                metas[idx].referenced = true;
+            }
+        }
+        schema.add(StructDef { key, cf: None, fields });
+        metas.push(Meta { depth, fixed_positional_only: all_fixed && n_fields > 0, referenced: false });
+    }
+    // control fields on a part of the top-level structs
+    let mut used_cf = BTreeSet::new();
+    for (si, m) in metas.iter().enumerate() {
+        if !m.referenced && rng.chance(2, 3) {
+            let cf = loop {
+                let c = (rng.byte(), rng.byte());
+                if used_cf.insert(c) {
+                    break c;
+                }
+            };
+            let key = schema.order[si].clone();
+            schema.structs.get_mut(&key).unwrap().cf = Some(cf);
+        }
+    }
+    schema
+}
+
+fn rust_type(f: &Field) -> String {
+    let base = match &f.enc {
+        Enc::Int { ty, .. } | Enc::Bcd(ty) => ty.rust().to_string(),
+        Enc::Cp437 | Enc::Hex | Enc::Utf8 => "String".into(),
+        Enc::DateTime => "chrono::NaiveDateTime".into(),
+        Enc::Struct(k) => k.clone(),
+        Enc::Bytes | Enc::Rcpt => unreachable!(),
+    };
+    match f.card {
+        Card::One => base,
+        Card::Opt => format!("Option<{base}>"),
+        Card::Many => format!("Vec<{base}>"),
+    }
+}
+
+fn attribute(f: &Field, rng: &mut Rng) -> String {
+    let enc = match &f.enc {
+        Enc::Int { be: true, .. } => Some("encoding::BigEndian"),
+        Enc::Int { be: false, .. } | Enc::Cp437 | Enc::DateTime | Enc::Struct(_) => None,
+        Enc::Bcd(_) => Some("encoding::Bcd"),
+        Enc::Hex => Some("encoding::Hex"),
+        Enc::Utf8 => Some("encoding::Utf8"),
+        Enc::Bytes | Enc::Rcpt => unreachable!(),
+    };
+    let len = match &f.len {
+        Len::None => None,
+        Len::Fixed(n) => Some(format!("length::Fixed<{n}>")),
+        Len::Ll => Some("length::Llv".to_string()),
+        Len::Lll => Some("length::Lllv".to_string()),
+        Len::Ber => Some("length::Tlv".to_string()),
+        Len::Temp => unreachable!(),
+    };
+    // the zvt_tlv form is the same as zvt_bmp with length::Tlv
+    if let (Some(tag), Len::Ber, true) = (f.tag, &f.len, rng.chance(1, 2)) {
+        let mut parts = vec![format!("tag = 0x{tag:x}")];
+        if let Some(e) = enc {
+            parts.push(format!("encoding = {e}"));
+        }
+        if rng.chance(1, 2) {
+            parts.reverse();
+        }
+        return format!("#[zvt_tlv({})]", parts.join(", "));
+    }
+    let mut parts = vec![];
+    if let Some(tag) = f.tag {
+        parts.push(format!("number = 0x{tag:x}"));
+    }
+    if let Some(l) = len {
+        parts.push(format!("length = {l}"));
+    }
+    if let Some(e) = enc {
+        parts.push(format!("encoding = {e}"));
+    }
+    if parts.is_empty() {
+        return String::new();
+    }
+    format!("#[zvt_bmp({})]", parts.join(", "))
+}
+
+const PRELUDE: &str = r#"// GENERATED by zvtmon C12 -- do not edit.
+#![allow(dead_code, unused_imports, clippy::all)]
+use refcodec::engine::*;
+use refcodec::evidence::Report;
+use refcodec::layout::Schema;
+use refcodec::val::Val;
+use std::fmt::Debug;
+use zvt::{encoding, length, Zvt, ZvtSerializer};
+
+refcodec::fromval_prelude!();
+
+fn run<T>(bytes: &[u8]) -> Outcome
+where
+    T: ZvtSerializer + Debug + PartialEq,
+    encoding::Default: encoding::Encoding<T>,
+{
+    match T::zvt_deserialize(bytes) {
+        Err(e) => Outcome::Err(format!("{e:?}")),
+        Ok((x, rest)) => {
+            let rest = rest.len();
+            let reenc = x.zvt_serialize();
+            let (re_eq, re_rest, re_err, re_debug) = match T::zvt_deserialize(&reenc) {
+                Ok((y, r)) => (y == x, r.len(), None, format!("{y:?}")),
+                Err(e) => (false, 0, Some(format!("{e:?}")), String::new()),
+            };
+            Outcome::Ok { debug: format!("{x:?}"), rest, reenc, re_eq, re_rest, re_err, re_debug }
+        }
+    }
+}
+
+fn decode_only<T>(bytes: &[u8]) -> Outcome
+where
+    T: ZvtSerializer + Debug,
+    encoding::Default: encoding::Encoding<T>,
+{
+    match T::zvt_deserialize(bytes) {
+        Err(e) => Outcome::Err(format!("{e:?}")),
+        Ok((x, rest)) => Outcome::Ok { debug: format!("{x:?}"), rest: rest.len(), reenc: vec![], re_eq: true, re_rest: 0, re_err: None, re_debug: String::new() },
+    }
+}
+
+fn build<T>(v: &Val) -> Option<Built>
+where
+    T: FromVal + ZvtSerializer + Debug + PartialEq,
+    encoding::Default: encoding::Encoding<T>,
+{
+    let x = T::from_val(v)?;
+    let enc = x.zvt_serialize();
+    let dec = match T::zvt_deserialize(&enc) {
+        Ok((y, rest)) => Ok((y == x, rest.len(), format!("{y:?}"))),
+        Err(e) => Err(format!("{e:?}")),
+    };
+    Some(Built { debug: format!("{x:?}"), enc, dec })
+}
+"#;
+
+const MAIN_TAIL: &str = r#"
+struct Child;
+impl Sut for Child {
+    fn build(&mut self, key: &str, v: &Val) -> Option<Result<Built, String>> {
+        match guarded(|| build_raw(key, v)) {
+            Ok(None) => None,
+            Ok(Some(b)) => Some(Ok(b)),
+            Err(p) => Some(Err(p)),
+        }
+    }
+    fn run(&mut self, key: &str, bytes: &[u8]) -> Outcome {
+        match guarded(|| run_raw(key, bytes)) {
+            Ok(o) => o,
+            Err(p) => Outcome::Panic(p),
+        }
+    }
+    fn decode(&mut self, key: &str, bytes: &[u8]) -> Outcome {
+        match guarded(|| decode_raw(key, bytes)) {
+            Ok(o) => o,
+            Err(p) => Outcome::Panic(p),
+        }
+    }
+}
+
+fn main() {
+    // args: <tier> <seed> <threads> <out.json> <per_type_random> <mutation_bases>
+    let a: Vec<String> = std::env::args().collect();
+    let tier = a[1].clone();
+    let seed: u64 = a[2].parse().unwrap();
+    let threads: usize = a[3].parse().unwrap();
+    let out = a[4].clone();
+    let per_type_random: usize = a[5].parse().unwrap();
+    let mutation_bases: usize = a[6].parse().unwrap();
+    install_panic_hook();
+    let schema = Schema::parse(include_str!("layout.txt"));
+    let keys: Vec<String> = schema.order.clone();
+    let mut report = Report::new("C12", &tier, seed, "exploration");
+    let plan = Plan { per_type_random, per_field_alone: 4, all_present: 4, mutation_bases, max_perms: 120, big: false };
+    let make: &(dyn Fn() -> Box<dyn Sut> + Sync) = &|| Box::new(Child);
+    run_types(threads, seed, &mut report, &schema, &keys, Prop::All, "C12", &plan, make);
+    presence_floor(&mut report, &schema, &keys);
+    // a field that can never be present/absent canonically is the generator's business, not a verdict
+    let gaps = report.inconclusive.clone();
+    report.inconclusive.clear();
+    report.extra.insert("presence_notes".into(), serde_json::json!(gaps));
+    std::fs::write(&out, serde_json::to_string(&report.dump_json()).unwrap()).expect("write result");
+}
+"#;
+
+/// Emit the generated crate; returns its directory.
+pub fn emit_crate(schema: &Schema, dir: &Path, repo: &str, harness: &str, seed: u64) {
+    let mut rng = Rng::derive(seed, 0xA77);
+    let mut src = String::from(PRELUDE);
+    for d in schema.iter() {
+        src.push_str("\n#[derive(Debug, Default, PartialEq, Zvt)]\n");
+        if let Some((c, i)) = d.cf {
+            src.push_str(&format!("#[zvt_control_field(class = 0x{c:02x}, instr = 0x{i:02x})]\n"));
+        }
+        src.push_str(&format!("pub struct {} {{\n", d.key));
+        for f in &d.fields {
+            let attr = attribute(f, &mut rng);
+            if !attr.is_empty() {
+                src.push_str(&format!("    {attr}\n"));
+            }
+            src.push_str(&format!("    pub {}: {},\n", f.name, rust_type(f)));
+        }
+        src.push_str("}\n");
+        // typed construction (field names only)
+        src.push_str(&format!("impl FromVal for {} {{\n    #[allow(unused_variables)]\n    fn from_val(v: &Val) -> Option<Self> {{\n        let Val::Struct(_) = v else {{ return None }};\n        Some({} {{ {} }})\n    }}\n}}\nimpl Elem for {} {{}}\n", d.key, d.key, d.fields.iter().map(|f| format!("{}: FromVal::from_val(v.field(\"{}\")?)?", f.name, f.name)).collect::<Vec<_>>().join(", "), d.key));
+    }
+    for (fname, call) in [("run_raw", "run"), ("decode_raw", "decode_only")] {
+        src.push_str(&format!("\nfn {fname}(key: &str, bytes: &[u8]) -> Outcome {{\n    match key {{\n"));
+        for d in schema.iter() {
+            src.push_str(&format!("        \"{}\" => {call}::<{}>(bytes),\n", d.key, d.key));
+        }
+        src.push_str("        _ => panic!(\"unknown type\"),\n    }\n}\n");
+    }
+    src.push_str("\nfn build_raw(key: &str, v: &Val) -> Option<Built> {\n    match key {\n");
+    for d in schema.iter() {
+        src.push_str(&format!("        \"{}\" => build::<{}>(v),\n", d.key, d.key));
+    }
+    src.push_str("        _ => None,\n    }\n}\n");
+    src.push_str(MAIN_TAIL);
+    std::fs::create_dir_all(dir.join("src")).expect("gen dir");
+    std::fs::write(dir.join("src/main.rs"), src).unwrap();
+    std::fs::write(dir.join("src/layout.txt"), schema.to_text()).unwrap();
+    let cargo = format!(
+        "[package]\nname = \"gen_derive_sut\"\nversion = \"0.0.0\"\nedition = \"2021\"\n\n[workspace]\n\n[dependencies]\nzvt = {{ path = \"{repo}/zvt\" }}\nzvt_builder = {{ path = \"{repo}/zvt_builder\" }}\nrefcodec = {{ path = \"{harness}/refcodec\" }}\nlog = \"0.4.19\"\nchrono = \"0.4.24\"\nserde_json = \"1.0.105\"\n\n[profile.release]\nopt-level = 1\noverflow-checks = true\ndebug-assertions = true\ndebug = 0\nincremental = false\ncodegen-units = 16\n"
+    );
+    std::fs::write(dir.join("Cargo.toml"), cargo).unwrap();
+    let _ = std::fs::copy(format!("{harness}/Cargo.lock"), dir.join("Cargo.lock"));
+}
+
+pub fn run(ctx: &Ctx) -> i32 {
+    let mut report = ctx.report("C12", "exploration");
+    let repo = std::env::var("VERIF_REPO_PATH").unwrap_or_else(|_| "/repo".into());
+    let harness = std::env::var("VERIF_HARNESS").unwrap_or_else(|_| "/verif/harness".into());
+    let work = PathBuf::from(std::env::var("VERIF_WORK").unwrap_or_else(|_| "/verif/.build/main".into()));
+    let (n_crates, n_structs, per_type, bases) = if ctx.quick() { (1usize, 160usize, 150usize, 24usize) } else { (16, 320, 2000, 300) };
+    report.rule = format!("{n_crates} generated crate(s) x {n_structs} struct definitions drawn from the attribute grammar of the derive macro (<= 8 fields, nesting <= 3, positional before tagged, distinct representable tags, repeated fields tagged or length-prefixed, rest-of-scope fields only last; types u8..u64/usize/String/NaiveDateTime/Option/Vec/nested; length styles none/Fixed/LLVAR/LLLVAR/BER; encodings Default/BigEndian/Bcd/Hex/Utf8; zvt_bmp and zvt_tlv forms; optional control field), compiled against /repo and run; per struct: systematic presence masks + {per_type} random canonical values judged as in C01/C03 (typed value constructed, serialised, deserialised; both directions against the reference codec interpreting the generator's own description), and the C13/C14 mutations on {bases} base values per struct. Non-trivial = non-empty encoding; distinct by hash of (type, bytes) within a crate, crates have disjoint types.");
+    report.exhaustive = Some(false);
+    report.assumptions = vec!["the generator only emits definitions inside the macro's documented grammar; a generated crate that does not compile makes the run inconclusive".into(), "the reference codec interprets the generator's own description of each struct (layout.txt next to the generated source)".into()];
+    let mut programs = 0u64;
+    let results: Vec<Result<serde_json::Value, String>> = std::thread::scope(|s| {
+        let handles: Vec<_> = (0..n_crates)
+            .map(|k| {
+                let (repo, harness, work) = (repo.clone(), harness.clone(), work.clone());
+                let ctx = ctx.clone();
+                s.spawn(move || -> Result<serde_json::Value, String> {
+                    let seed = ctx.seed.wrapping_mul(1000).wrapping_add(k as u64);
+                    let schema = gen_schema(seed, n_structs);
+                    let dir = work.join("gen").join(format!("crate{k}"));
+                    let _ = std::fs::remove_dir_all(&dir);
+                    emit_crate(&schema, &dir, &repo, &harness, seed);
+                    // crates are built one after the other into a shared target directory (dependencies compiled once)
+                    Ok(json!({"dir": dir.to_string_lossy(), "seed": seed, "structs": schema.order.len()}))
+                })
+            })
+            .collect();
+        handles.into_iter().map(|h| h.join().unwrap()).collect()
+    });
+    let target = work.join("gen-target");
+    let threads_per = (ctx.threads / n_crates.min(4)).max(1);
+    let mut dumps = vec![];
+    // build sequentially (cargo parallelises internally), then run up to 4 at a time
+    let mut bins = vec![];
+    for (k, res) in results.iter().enumerate() {
+        let info = res.as_ref().unwrap();
+        let dir = info["dir"].as_str().unwrap().to_string();
+        let out = std::process::Command::new("cargo")
+            .args(["build", "--offline", "--release", "--quiet"])
+            .current_dir(&dir)
+            .env("CARGO_TARGET_DIR", target.join(format!("t{}", k % 4)))
+            .env("CARGO_NET_OFFLINE", "true")
+            .output();
+        match out {
+            Ok(o) if o.status.success() => {
+                let bin = target.join(format!("t{}", k % 4)).join("release/gen_derive_sut");
+                let keep = PathBuf::from(&dir).join("sut-bin");
+                let _ = std::fs::copy(&bin, &keep);
+                bins.push((k, keep, dir.clone(), info["seed"].as_u64().unwrap()));
+                programs += info["structs"].as_u64().unwrap();
+            }
+            Ok(o) => {
+                let err = String::from_utf8_lossy(&o.stderr);
+                let first = err.lines().filter(|l| l.starts_with("error")).take(3).collect::<Vec<_>>().join(" | ");
+                report.inconclusive(&format!("generated crate {k} (seed {}) does not compile: {first}", info["seed"]));
+                let _ = std::fs::write(PathBuf::from(&dir).join("build-error.txt"), err.as_bytes());
+            }
+            Err(e) => report.inconclusive(&format!("cannot run cargo for the generated crate: {e}")),
+        }
+    }
+    for chunk in bins.chunks(4) {
+        let children: Vec<_> = chunk
+            .iter()
+            .map(|(k, bin, dir, seed)| {
+                let out = PathBuf::from(dir).join("result.json");
+                let child = std::process::Command::new(bin)
+                    .args([ctx.tier.as_str(), &seed.to_string(), &threads_per.to_string(), out.to_str().unwrap(), &per_type.to_string(), &bases.to_string()])
+                    .stdout(std::process::Stdio::null())
+                    .spawn();
+                (*k, out, child)
+            })
+            .collect();
+        for (k, out, child) in children {
+            match child {
+                Ok(mut c) => {
+                    let st = c.wait();
+                    match (st, std::fs::read_to_string(&out)) {
+                        (Ok(s), Ok(text)) if s.success() => match serde_json::from_str::<serde_json::Value>(&text) {
+                            Ok(v) => dumps.push((k, v)),
+                            Err(e) => report.inconclusive(&format!("generated crate {k}: unreadable result: {e}")),
+                        },
+                        (st, _) => report.inconclusive(&format!("generated crate {k}: the program did not finish normally ({st:?})")),
+                    }
+                }
+                Err(e) => report.inconclusive(&format!("generated crate {k}: cannot start: {e}")),
+            }
+        }
+    }
+    for (k, v) in &dumps {
+        // attach the struct's source to every violation's replay
+        let mut v = v.clone();
+        let dir = work.join("gen").join(format!("crate{k}"));
+        if let Some(arr) = v["violations"].as_array_mut() {
+            let src = std::fs::read_to_string(dir.join("src/main.rs")).unwrap_or_default();
+            let layout = std::fs::read_to_string(dir.join("src/layout.txt")).unwrap_or_default();
+            for x in arr.iter_mut() {
+                let ty = x["replay"]["type"].as_str().unwrap_or("").to_string();
+                let def = src.split("\n#[derive(Debug, Default, PartialEq, Zvt)]\n").find(|b| b.contains(&format!("pub struct {ty} {{"))).map(|b| b.split("impl FromVal").next().unwrap_or("").to_string());
+                let lay = layout.split("\n\n").find(|b| b.starts_with(&format!("struct {ty}\n")) || b.starts_with(&format!("struct {ty} "))).map(|s| s.to_string());
+                x["replay"]["kind"] = json!("derive");
+                x["replay"]["program"] = json!(def);
+                x["replay"]["layout"] = json!(lay);
+                // signatures of generated types are made stable across seeds: strip the struct's ordinal
+                let sig = x["signature"].as_str().unwrap_or("").to_string();
+                x["signature"] = json!(format!("C12 {}", refcodec::evidence::strip_numbers(&sig)));
+            }
+        }
+        report.absorb_json(&v);
+    }
+    report.extra.insert("programs".into(), json!(programs));
+    report.extra.insert("generated_crates".into(), json!(n_crates));
+    report.extra.insert("disagreements_checked".into(), json!(report.violation_count));
+    if dumps.is_empty() && report.inconclusive.is_empty() {
+        report.inconclusive("no generated crate produced a result");
+    }
+    // sample: one generated definition
+    if let Some(Ok(info)) = results.first() {
+        if let Ok(src) = std::fs::read_to_string(PathBuf::from(info["dir"].as_str().unwrap()).join("src/main.rs")) {
+            if let Some(b) = src.split("\n#[derive(Debug, Default, PartialEq, Zvt)]\n").nth(3) {
+                report.sample(json!({"generated_struct": b.split("impl FromVal").next().unwrap_or("")}));
+            }
+        }
+    }
+    // disk hygiene: keep sources of the last run (small), drop nothing else here; target dirs are reused across runs
+    report.finish()
+}
